@@ -7,6 +7,7 @@ import (
 	"io"
 	"os"
 	"strings"
+	"unicode/utf8"
 
 	"github.com/itchyny/go-yaml"
 
@@ -285,6 +286,8 @@ type yamlInputIter struct {
 	dec   *yaml.Decoder
 	ir    *inputReader
 	fname string
+	index int // characters discarded from the captured input
+	line  int // lines discarded from the captured input
 	err   error
 }
 
@@ -298,14 +301,32 @@ func (i *yamlInputIter) Next() (any, bool) {
 	if i.err != nil {
 		return nil, false
 	}
+	var n yaml.Node
 	var v any
-	if err := i.dec.Decode(&v); err != nil {
+	err := i.dec.Decode(&n)
+	if err == nil {
+		err = n.Decode(&v)
+	}
+	if err != nil {
 		if err == io.EOF {
 			i.err = err
 			return nil, false
 		}
-		i.err = &yamlParseError{i.fname, i.ir.getContents(nil, nil), err}
+		i.err = &yamlParseError{i.fname, i.ir.getContents(nil, nil), i.index, i.line, err}
 		return i.err, true
+	}
+	if buf := i.ir.buf; buf != nil && buf.Len() >= 16*1024 {
+		// discard what precedes the document, errors are reported after it
+		b, m := buf.Bytes(), 0
+		for ; i.index < n.Index && m < len(b); i.index++ {
+			_, size := utf8.DecodeRune(b[m:])
+			m += size
+		}
+		if m > 0 && b[m-1] == '\r' { // do not split CRLF
+			m--
+			i.index--
+		}
+		i.line += countNewlines(buf.Next(m))
 	}
 	return normalizeYAMLNumbers(v), true
 }
